@@ -416,6 +416,11 @@ package common
 // ---- C08 / C18: the file-name index follows file creation and deletion ----
 // Paths are indexed under their base name (last "/" component) and, when it has a ".", under the stem before the first ".".
 // Every bucket of the two indexes is a real (non-nil) map: buckets are only ever created by InsertOneFile.
+// the configuration object is built in one place (createDefaultGlobalConfig: a composite literal stored in the package
+// variable GConfig, with dirManager: createDirManager()), and the unexported field is never written again. ASSUMED at that
+// construction site (the engine re-proves type invariants for pointer parameters, not for a literal stored in a global);
+// re-proved at the exits of the methods that write GlobalConfig fields (ReadConfig, ...)
+//@ typeinv GlobalConfig [C01]: self.dirManager != nil
 //@ typeinv FileIndexInfo: self.fileNameMap != nil && self.freFileNameMap != nil
 //@ typeinv FileIndexInfo: nonnilvals(self.fileNameMap)
 //@ typeinv FileIndexInfo: nonnilvals(self.freFileNameMap)
